@@ -5,8 +5,9 @@ namespace {
 struct Local { uint64_t specs = 0, runs = 0, faults_consumed = 0, faults_unreached = 0, max_allocs = 0, retries = 0, chain_runs = 0; uint64_t per_kind[K_NKINDS] = {0}; };
 
 template <class C> struct Runner {
-    Ctx *ctx; Local *lc; ArenaMM ro; Mem led, libc;
-    Runner(Ctx *c, Local *l) : ctx(c), lc(l), ro(64), led(0), libc(1) {}
+    Ctx *ctx; Local *lc; ArenaMM ro; Mem led, libc, comp;   // comp: the manager completed by the library from a malloc/free-only backend (its calloc / realloc are the library's emulations)
+    Runner(Ctx *c, Local *l) : ctx(c), lc(l), ro(64), led(0), libc(1), comp(2) {}
+    Mem &pick(int mk) { return mk == 2 ? comp : mk ? libc : led; }
     static Str enc(const ScnSpec &s, int memkind, uint64_t a, uint64_t b, uint64_t from) { return s.enc() + fmt("`%d`%llu`%llu`%llu`%s", memkind, (unsigned long long)a, (unsigned long long)b, (unsigned long long)from, Api<C>::name()); }
     // one execution with the given injection; returns false on violation. n_out receives the request count.
     Str content0;     // result_content of the undisturbed run of the scenario in hand
@@ -92,20 +93,20 @@ template <class C> struct Runner {
         return ok;
     }
     void run_chain(const Str &t, const Str &bt, int m1) {
-        for (int mk = 0; mk < 2; mk++) { Mem &mem = mk ? libc : led; ChainOut b0; memset(&b0, 0, sizeof b0);
+        for (int mk = 0; mk < 3; mk++) { Mem &mem = pick(mk); ChainOut b0; memset(&b0, 0, sizeof b0);
             if (!chain_exec(t, bt, m1, mem, 0, 0, &b0)) continue;
             for (uint64_t k = 1; k <= b0.nreq; k++) { chain_exec(t, bt, m1, mem, k, 0, &b0); chain_exec(t, bt, m1, mem, 0, k, &b0); } }
     }
     void run_spec(const ScnSpec &sp, int only_mem = -1) {
         lc->specs++; lc->per_kind[sp.kind]++;
-        for (int mk = 0; mk < 2; mk++) {
+        for (int mk = 0; mk < 3; mk++) {
             if (only_mem >= 0 && mk != only_mem) continue;
-            Mem &mem = mk ? libc : led; int rc0 = 0; Str key0; uint64_t n = 0;
-            if (sp.kind == K_PARSE && sp.p1 != 0 && mk == 0) continue;       // the custom-manager parse has one entry point
+            Mem &mem = pick(mk); int rc0 = 0; Str key0; uint64_t n = 0;
+            if (sp.kind == K_PARSE && sp.p1 != 0 && mk != 1) continue;       // the custom-manager parse has one entry point
             if (!exec(sp, mem, 0, 0, 0, &rc0, &key0, &n)) continue;
             if (n > lc->max_allocs) lc->max_allocs = n;
             for (uint64_t k = 1; k <= n; k++) { exec(sp, mem, k, 0, 0, &rc0, &key0, 0); exec(sp, mem, 0, 0, k, &rc0, &key0, 0); }
-            if (n <= 48) for (uint64_t k1 = 1; k1 <= n; k1++) for (uint64_t k2 = k1 + 1; k2 <= n + 1; k2++) exec(sp, mem, k1, k2, 0, &rc0, &key0, 0);
+            if (n <= 48 && mk != 2) for (uint64_t k1 = 1; k1 <= n; k1++) for (uint64_t k2 = k1 + 1; k2 <= n + 1; k2++) exec(sp, mem, k1, k2, 0, &rc0, &key0, 0);
         }
     }
 };
@@ -127,19 +128,19 @@ void run(Ctx &ctx) {
 void replay(Ctx &ctx, const Str &enc) {
     std::vector<Str> p = split(enc, '`');
     if (p.size() == 8 && p[0] == "chain") { Local lc2; int m1 = atoi(p[3].c_str()), mk = atoi(p[4].c_str()); uint64_t at = strtoull(p[5].c_str(), 0, 10), from = strtoull(p[6].c_str(), 0, 10);
-        if (p[7] == "A") { Runner<char> r(&ctx, &lc2); typename Runner<char>::ChainOut b0; memset(&b0, 0, sizeof b0); Mem &m = mk ? r.libc : r.led; if (r.chain_exec(p[1], p[2], m1, m, 0, 0, &b0) && (at || from)) r.chain_exec(p[1], p[2], m1, m, at, from, &b0); }
-        else { Runner<wchar_t> r(&ctx, &lc2); typename Runner<wchar_t>::ChainOut b0; memset(&b0, 0, sizeof b0); Mem &m = mk ? r.libc : r.led; if (r.chain_exec(p[1], p[2], m1, m, 0, 0, &b0) && (at || from)) r.chain_exec(p[1], p[2], m1, m, at, from, &b0); }
+        if (p[7] == "A") { Runner<char> r(&ctx, &lc2); typename Runner<char>::ChainOut b0; memset(&b0, 0, sizeof b0); Mem &m = r.pick(mk); if (r.chain_exec(p[1], p[2], m1, m, 0, 0, &b0) && (at || from)) r.chain_exec(p[1], p[2], m1, m, at, from, &b0); }
+        else { Runner<wchar_t> r(&ctx, &lc2); typename Runner<wchar_t>::ChainOut b0; memset(&b0, 0, sizeof b0); Mem &m = r.pick(mk); if (r.chain_exec(p[1], p[2], m1, m, 0, 0, &b0) && (at || from)) r.chain_exec(p[1], p[2], m1, m, at, from, &b0); }
         return; }
     ScnSpec sp; if (p.size() != 10 || !ScnSpec::dec(p, 0, sp)) return; Local lc; int mk = atoi(p[5].c_str());
     uint64_t a = strtoull(p[6].c_str(), 0, 10), b = strtoull(p[7].c_str(), 0, 10), f = strtoull(p[8].c_str(), 0, 10);
-    if (p[9] == "A") { Runner<char> r(&ctx, &lc); int rc0; Str k0; Mem &m = mk ? r.libc : r.led; if (r.exec(sp, m, 0, 0, 0, &rc0, &k0, 0)) r.exec(sp, m, a, b, f, &rc0, &k0, 0); }
-    else { Runner<wchar_t> r(&ctx, &lc); int rc0; Str k0; Mem &m = mk ? r.libc : r.led; if (r.exec(sp, m, 0, 0, 0, &rc0, &k0, 0)) r.exec(sp, m, a, b, f, &rc0, &k0, 0); }
+    if (p[9] == "A") { Runner<char> r(&ctx, &lc); int rc0; Str k0; Mem &m = r.pick(mk); if (r.exec(sp, m, 0, 0, 0, &rc0, &k0, 0)) r.exec(sp, m, a, b, f, &rc0, &k0, 0); }
+    else { Runner<wchar_t> r(&ctx, &lc); int rc0; Str k0; Mem &m = r.pick(mk); if (r.exec(sp, m, 0, 0, 0, &rc0, &k0, 0)) r.exec(sp, m, a, b, f, &rc0, &k0, 0); }
 }
 Str coverage(const Ctx &, const Stats &st) {
     uint64_t mx = 0; auto it = st.sets.find("max_allocs"); if (it != st.sets.end()) for (auto &s : it->second) mx = std::max<uint64_t>(mx, strtoull(s.c_str(), 0, 10));
     Str per; for (int k = 0; k < K_NKINDS; k++) per += jkv(Str("scenarios_") + SCN_NAMES[k], st.get(Str("scenarios_") + SCN_NAMES[k])) + ", ";
     return jkv("evaluations", st.get("evaluations")) + ", " + jkv("distinct_nontrivial", st.get("faults_consumed")) + ", " +
-           jkvs("rule", "cases = (call with inputs, allocator, char type, fault set): calls are parse (3 entry points), makeOwner, normalize (8 masks, borrowed and owned), resolve (2 options), shorten (2 modes), dissectQuery, composeQueryMalloc over the scenario universe; allocator is a ledger manager or libc itself (NULL manager, failures injected in the interposed malloc/calloc/realloc); a counting run gives n requests, then EVERY k in 1..n fails once, EVERY k fails together with all later requests, and EVERY pair k1<k2 fails (deviation bound 2, n <= 48). Oracle: URI_ERROR_MALLOC whenever a failure was consumed, identical result otherwise, no crash, no block outstanding after the caller's ordinary cleanup, no invalid/double free, repeated free harmless, inputs in PROT_READ memory. distinct_nontrivial = executions in which at least one injected failure was actually consumed.") + ", " +
+           jkvs("rule", "cases = (call with inputs, allocator, char type, fault set): calls are parse (3 entry points), makeOwner, normalize (8 masks, borrowed and owned), resolve (2 options), shorten (2 modes), dissectQuery, composeQueryMalloc over the scenario universe; allocator is a ledger manager, libc itself (NULL manager, failures injected in the interposed malloc/calloc/realloc) or - for the single-failure and from-k-on sets - the manager that uriCompleteMemoryManager builds over a malloc/free-only ledger backend (so that a failing request reaches the library's own calloc / realloc emulation); a counting run gives n requests, then EVERY k in 1..n fails once, EVERY k fails together with all later requests, and EVERY pair k1<k2 fails (deviation bound 2, n <= 48). Oracle: URI_ERROR_MALLOC whenever a failure was consumed, identical result otherwise, no crash, no block outstanding after the caller's ordinary cleanup, no invalid/double free, repeated free harmless, inputs in PROT_READ memory. distinct_nontrivial = executions in which at least one injected failure was actually consumed.") + ", " +
            jkv("scenarios", st.get("scenarios")) + ", " + jkv("scenario_universe", st.get("universe")) + ", " + per + jkv("faults_consumed", st.get("faults_consumed")) + ", " + jkv("faults_not_reached", st.get("faults_not_reached")) + ", " + jkv("operation_chain_executions_under_faults", st.get("chain_executions")) + ", " + jkv("retries_after_failure_compared", st.get("retries_after_failure")) + ", " + jkv("max_requests_in_one_call", mx) + ", " + jsamples(st);
 }
 Check chk = { "C14", "fault_enumeration", run, replay, coverage, "touching released memory is only visible in the sanitizer pass (ASan) - the plain pass poisons released blocks but hands them back to libc|deviation bound: two independent failures, or one failure with all later ones" };
